@@ -42,6 +42,11 @@ def run(chk):
     if chk.want("R09.7"):
         from ..inherit import inherit
         inherit(chk, "R09.7", "c08", ["R08.1", "R08.4"])
+    chk.rule("R09.10", "the coefficients the invariants are computed from are exact for band-limited radial functions, so that a rotated pose gives the "
+                       "rotated coefficients: quadrature plumbing of the transform (one FFT norm, fft/ifft pairing, weights, phi grid, ntheta >= L + 1) (= C07 R07.7)", 8)
+    if chk.want("R09.10"):
+        from ..inherit import inherit
+        inherit(chk, "R09.10", "c07", ["R07.7"])
     chk.rule("R09.6", "the charge model behind the 'esp' surface property is entry-aligned: M[i,j] is filled from dists[i,j] with the same "
                       "index set on both sides, per-atom parameters are collected in atom order, the solved vector is cut to the atoms", 5)
     if chk.want("R09.6"):
